@@ -258,7 +258,8 @@ def run_case(case, rng):
         fresh = Bd.build(sp, rep if not explicit else rep, shuffle_rng=None)
         full = set(expected_closure)
         S0 = {s for s, p in sp.init if p > 0}
-        for k in sorted({1, 2, rng.randint(1, max(1, len(full))), len(full), len(full) + 3}):
+        maxsucc = max([len({u for a in sp.acts[s] for u, q in sp.P[(s, a)] if q > 0}) for s in full if s not in sp.flag] or [0])
+        for k in sorted({0, 1, 2, rng.randint(1, max(1, len(full))), len(full), len(full) + 3}):
             Rk = case.call("reachable_states(max_states)", lambda: set(fresh.reachable_states(max_states=k)))
             case.count("max_states_calls")
             if Rk is case.FAIL:
@@ -267,6 +268,10 @@ def run_case(case, rng):
                        lambda: f"k={k} R={sorted(map(repr, Rk))}")
             if len(Rk) < len(full):
                 case.check(len(Rk) >= k, "max_states:stopped-early", f"k={k} |R|={len(Rk)} |closure|={len(full)}")
+            # the budget binds: expansion stops once k states are known, so at most one more state's successors come on top
+            # (and with a budget of 0 nothing is expanded at all)
+            bound = len(S0) if k == 0 else max(len(S0), k - 1 + maxsucc)
+            case.check(len(Rk) <= bound, "max_states:budget-exceeded", f"k={k} |R|={len(Rk)} bound={bound} |S0|={len(S0)}")
             # prefix-closed: every non-initial member has a listed predecessor
             ok, ok_relaxed = True, True
             for t in Rk - S0:
